@@ -55,34 +55,7 @@ def run(ctx):
             item["check"] = c.get("v") if c.get("r") == "ok" else None
     # rows over SMALL alphabets, one per merging pass (merge_dots, merge_primes, merge_chars, merge_vertical_bars, dashes, digit blocks): the passes count
     # and index neighbouring tokens, so what matters is which tokens stand between the ones they merge -- random token text almost never lines three of them up
-    ALPHABETS = [[".", ".", "…", ","], ["'", "′", "″", "‵"], ["_", "_", "\u00a0"], ["|", "||", "‖", "∣"], ["-", "--", "−", "—"], [",", ".", " ", "\u00a0"], [":", "::", "/"], ["°", "'", "^", "¯"]]
-    fam = []
-    n_fam = 1200 if ctx.tier == "quick" else 40000
-    for q in range(n_fam):
-        alpha = ALPHABETS[q % len(ALPHABETS)]
-        def other():
-            r = rng.random()
-            if r < 0.35:
-                return N("mi", text=rng.choice("abxyzn"))
-            if r < 0.6:
-                return N("mn", text=rng.choice(["1", "2", "234", "5", "10", "000"]))
-            if r < 0.75:
-                return N("mo", text=rng.choice(["+", "=", "(", ")", "-"]))
-            if r < 0.85:
-                return N(rng.choice(["msup", "msub"]), [N("mi", text=rng.choice("xyz")), N("mn", text=rng.choice(["2", "3"]))])
-            if r < 0.92:
-                return N("mtext", text=rng.choice(["if", " ", "and"]))
-            return N("mrow", [N("mi", text="c"), N("mo", text=rng.choice(alpha))])
-        kids = []
-        for _ in range(rng.randrange(3, 10)):
-            if rng.random() < 0.5:
-                kids.append(N(rng.choice(["mo", "mo", "mo", "mi", "mtext"]), text=rng.choice(alpha)))
-            else:
-                kids.append(other())
-        row = N("mrow", kids)
-        wrap = rng.random()
-        tree = N("math", [row]) if wrap < 0.6 else N("math", [N("msqrt", kids)]) if wrap < 0.75 else N("math", [N("mfrac", [row, N("mn", text="7")])]) if wrap < 0.9 else N("math", kids)
-        fam.append(tree)
+    fam = canon_run.merge_family(rng, 1200 if ctx.tier == "quick" else 40000)
     for block, dec in canon_run.LOCALES[:2]:
         pre = [{"op": "session"}, {"op": "rules_dir", "dir": core.rules_dir()}, {"op": "set_pref", "name": "BlockSeparators", "value": block},
                {"op": "set_pref", "name": "DecimalSeparators", "value": dec}]
